@@ -139,6 +139,19 @@ var c35Modes = []string{"matching", "missing", "surplus-valid", "stray-culprit",
 type c35Case struct {
 	History []c35Event `json:"history"`
 	Event   c35Event   `json:"event"`
+	// Init: which target is pending on core 0 / core 1 in the installed start state
+	// (nil: the standard assignment). All variants use the same assigned slot.
+	Init *[2]int `json:"init,omitempty"`
+	// Pre: cases run (unchecked) in the same process immediately before this one,
+	// without resetting package-level state (re-entry pass)
+	Pre []c35Case `json:"pre,omitempty"`
+}
+
+func (c c35Case) rho0() [2]int {
+	if c.Init != nil {
+		return *c.Init
+	}
+	return c35W.rho0
 }
 
 type c35CF struct {
@@ -303,8 +316,10 @@ type c35State struct {
 	Rho              [2]int       // target index pending on the core, -1 = empty
 }
 
-func c35InitState() c35State {
-	return c35State{Good: map[int]bool{}, Bad: map[int]bool{}, Wonky: map[int]bool{}, Off: map[int]bool{}, Rho: c35W.rho0}
+func c35InitState() c35State { return c35InitStateRho(c35W.rho0) }
+
+func c35InitStateRho(rho [2]int) c35State {
+	return c35State{Good: map[int]bool{}, Bad: map[int]bool{}, Wonky: map[int]bool{}, Off: map[int]bool{}, Rho: rho}
 }
 
 func c35SetStr(m map[int]bool) string {
@@ -470,7 +485,9 @@ func c35Validators(base int) types.ValidatorsData {
 	return vs
 }
 
-func c35Reset() (*blockchain.ChainState, c35Real) {
+func c35Reset() (*blockchain.ChainState, c35Real) { return c35ResetRho(c35W.rho0) }
+
+func c35ResetRho(rho0 [2]int) (*blockchain.ChainState, c35Real) {
 	types.SetTinyMode()
 	blockchain.ResetInstance()
 	blockchain.ClearVerifierCache()
@@ -478,7 +495,7 @@ func c35Reset() (*blockchain.ChainState, c35Real) {
 	rw := c35Real{tau: c35Tau0}
 	rw.rho = make(types.AvailabilityAssignments, 2)
 	for c := 0; c < 2; c++ {
-		rw.rho[c] = &types.AvailabilityAssignment{Report: c35W.reports[c35W.rho0[c]], AssignedSlot: 7}
+		rw.rho[c] = &types.AvailabilityAssignment{Report: c35W.reports[rho0[c]], AssignedSlot: 7}
 	}
 	return cs, rw
 }
@@ -695,8 +712,8 @@ func c35CheckTransition(r *vlib.Run, c c35Case, before c35Real, sBefore c35State
 // Returns the canonical real state after the case (for the self-test).
 func c35RunCase(r *vlib.Run, c c35Case) (canon string) {
 	panicked, msg, site := vlib.Guard(func() {
-		cs, rw := c35Reset()
-		st := c35InitState()
+		cs, rw := c35ResetRho(c.rho0())
+		st := c35InitStateRho(c.rho0())
 		all := append(append([]c35Event(nil), c.History...), c.Event)
 		for i, e := range all {
 			d := c35Extrinsic(e)
@@ -731,6 +748,66 @@ func c35RunCase(r *vlib.Run, c c35Case) (canon string) {
 	return
 }
 
+// c35RunUnchecked runs a case through the real code without applying the oracle
+// (used to put the process into the state "some other transition ran before").
+func c35RunUnchecked(c c35Case) {
+	vlib.Guard(func() {
+		cs, rw := c35ResetRho(c.rho0())
+		for _, e := range append(append([]c35Event(nil), c.History...), c.Event) {
+			if accepted, _, out, _ := c35Step(cs, rw, c35Extrinsic(e)); accepted {
+				rw = out
+			}
+		}
+	})
+}
+
+// c35ReentryPass: every transition result must be a function of (installed state,
+// extrinsic) only. Within one process, with no reset of package-level state beyond
+// what a node does, depth-1 transitions are run from start states that share
+// (core, assigned slot) but hold DIFFERENT pending reports, interleaved, each one
+// twice with transitions from the other start states in between; each run gets the
+// full oracle (in particular "judged bad or wonky => removed from rho-dagger") and
+// the two runs must agree.
+func c35ReentryPass(r *vlib.Run, events []c35Event) {
+	std := c35W.rho0
+	third := 3 - std[0] - std[1]
+	variants := [][2]int{std, {third, std[1]}, {std[0], third}, {std[1], std[0]}}
+	for ei, e := range events {
+		if !r.Mine(uint64(ei)) {
+			continue
+		}
+		first := map[int]string{}
+		var prev *c35Case
+		var lastPre []c35Case
+		run := func(vi int) string {
+			v := variants[vi]
+			c := c35Case{Event: e, Init: &v}
+			if prev != nil {
+				c.Pre = []c35Case{*prev}
+			}
+			lastPre = c.Pre
+			r.Space(1)
+			out := c35RunCase(r, c)
+			r.Trace()
+			pc := c35Case{Event: e, Init: &v}
+			prev = &pc
+			return out
+		}
+		for vi := range variants {
+			first[vi] = run(vi)
+		}
+		for vi := len(variants) - 1; vi >= 0; vi-- {
+			again := run(vi)
+			if again != first[vi] {
+				v := variants[vi]
+				r.Violation("extrinsic.Disputes", "result-depends-on-earlier-calls", "",
+					fmt.Sprintf("start state with T%d/T%d pending, block %s: first result {%s}, after transitions from other start states {%s}", v[0]+1, v[1]+1, c35EventString(e), first[vi], again),
+					c35Case{Event: e, Init: &v, Pre: lastPre})
+			}
+		}
+	}
+}
+
 func TestVerif_C35(t *testing.T) {
 	r := vlib.Start(t, "C35")
 	defer r.Finish()
@@ -740,6 +817,9 @@ func TestVerif_C35(t *testing.T) {
 
 	var rc c35Case
 	if r.IsReplay(&rc) {
+		for _, p := range rc.Pre {
+			c35RunUnchecked(p)
+		}
 		c35RunCase(r, rc)
 		return
 	}
@@ -818,6 +898,7 @@ func TestVerif_C35(t *testing.T) {
 			}
 		}
 	}
+	c35ReentryPass(r, events)
 	for k, v := range c35Diag {
 		r.Extra("sum_diag_"+k, v)
 	}
